@@ -6,12 +6,14 @@
     Vocabulary: [good_tree rooted n t] (Proofs/TreeGenMain.v) = well-formed, binary with the
     requested root degree, requested rootedness, leaves a permutation of Tip0..Tip(n-1), pairwise
     distinct, and equal to Go's Tips(); shapes in Spec/GenShape.v; [in_bounds] in Spec/Counting.v.
-    Not modelled (judged by the oracle of Judge/C16.v on Go's output only): the tip index and the
-    bitsets ("indexes ready"). *)
+    "Indexes ready": [indexes_ready t] (Proofs/TreeGenIndex.v) = the model of ReinitIndexes
+    (Model/Index.v, C04) returns tables on t and they describe t; Judge/C16.v compares Go's tip
+    index, tip ids and bitsets with those tables computed on the model tree. *)
 From Coq Require Import String ZArith QArith Bool Arith List Permutation.
 From GT Require Import Base.UTree Spec.Obs Spec.GenShape Spec.Counting Model.Reroot Model.Rand2 Model.TreeGen
      Proofs.TreeGenNames Proofs.TreeGenMain Proofs.TreeGenLens Proofs.TreeGenCat Proofs.TreeGenBal
-     Proofs.TreeGenBal2 Proofs.TreeGenTopo Proofs.TreeGenTopo2.
+     Proofs.TreeGenBal2 Proofs.TreeGenTopo Proofs.TreeGenTopo2
+     Model.Index Proofs.IndexBase Proofs.IndexTree Proofs.TreeGenIndex Proofs.TreeGenPlanted Proofs.Rand2Float.
 Import ListNotations.
 Local Close Scope Q_scope.
 
@@ -208,3 +210,89 @@ Theorem C16_topologies_rooted_below_minimum :
   forall n names, n < 2 -> exists m, all_topologies n true names = Err m.
 Proof. exact all_topologies_rooted_err. Qed.
 Print Assumptions C16_topologies_rooted_below_minimum.
+
+(** * indexes ready for use: on every generated tree the model of ReinitIndexes (C04) succeeds,
+    tip ids are the ranks of the tip names, every branch row (bitset, counts, partial hashes)
+    describes its branch *)
+Theorem C16_good_tree_indexes_ready :
+  forall rooted n t, good_tree rooted n t -> indexes_ready t.
+Proof. exact good_tree_indexes_ready. Qed.
+Print Assumptions C16_good_tree_indexes_ready.
+
+Theorem C16_uniform_indexes :
+  forall n rooted cs ls, 3 <= n -> in_bounds cs (uniform_bounds n rooted) ->
+    exists t, uniform_tree n rooted cs ls = GOk t /\ indexes_ready t.
+Proof. exact uniform_tree_indexes. Qed.
+Print Assumptions C16_uniform_indexes.
+
+Theorem C16_yule_indexes :
+  forall n rooted cs ls, 3 <= n -> in_bounds cs (yule_bounds n rooted) ->
+    exists t, yule_tree n rooted cs ls = GOk t /\ indexes_ready t.
+Proof. exact yule_tree_indexes. Qed.
+Print Assumptions C16_yule_indexes.
+
+Theorem C16_caterpillar_indexes :
+  forall n rooted ls, 3 <= n -> exists t, caterpillar_tree n rooted ls = GOk t /\ indexes_ready t.
+Proof. exact caterpillar_tree_indexes. Qed.
+Print Assumptions C16_caterpillar_indexes.
+
+Theorem C16_balanced_indexes :
+  forall d (rooted : bool) ls, (if rooted then 1 else 2) <= d ->
+    exists t, balanced_tree d rooted ls = GOk t /\ indexes_ready t.
+Proof. exact balanced_tree_indexes. Qed.
+Print Assumptions C16_balanced_indexes.
+
+Theorem C16_star_indexes : forall n, 2 <= n -> exists t, star_tree n = GOk t /\ indexes_ready t.
+Proof. exact star_tree_indexes. Qed.
+Print Assumptions C16_star_indexes.
+
+Theorem C16_star_from_names_indexes :
+  forall names, 2 <= length names -> NoDup names ->
+    exists t, star_tree_from_name names = GOk t /\ indexes_ready t.
+Proof. exact star_from_names_indexes. Qed.
+Print Assumptions C16_star_from_names_indexes.
+
+(** * what rooted AllTopologies returns exactly: planted trees -- an unnamed root, one branch
+    without length, an unnamed node whose neighbours are the root (first) and two children.
+    Dropping the planted root ([unplant]) gives the (2n-3)!! rooted binary trees, pairwise
+    distinct as labelled rooted topologies, same leaves and same key as the planted ones *)
+Theorem C16_topologies_rooted_shape :
+  forall n names ts, 2 <= n -> all_topologies n true names = Ok ts ->
+    Forall (fun t => exists a b,
+              t = UNode EmptyString [] [Some (eL nilv, UNode EmptyString [] [None; Some a; Some b])]) ts.
+Proof. exact all_topologies_rooted_shape_names. Qed.
+Print Assumptions C16_topologies_rooted_shape.
+
+Theorem C16_unplant :
+  forall t, wf t = true -> planted t = true ->
+    exists r, unplant t = Some r /\ wf r = true /\ binary true r = true /\
+              leaves r = leaves t /\ topo_key true r = topo_key true t.
+Proof. exact unplant_spec. Qed.
+Print Assumptions C16_unplant.
+
+Theorem C16_topologies_rooted_unplanted :
+  forall n ts, 2 <= n -> all_topologies n true [] = Ok ts ->
+    exists rs, map unplant ts = map Some rs /\ length rs = n_rooted n /\
+      Forall (fun r => wf r = true /\ binary true r = true /\ UTree.rooted r = true /\
+                       Permutation (leaves r) (map (fun k => topo_name [] k) (seq 0 n))) rs /\
+      NoDup (map (topo_key true) rs).
+Proof. exact all_topologies_rooted_unplanted. Qed.
+Print Assumptions C16_topologies_rooted_unplanted.
+
+(** * rand.Float64 on the raw stream (used by the correspondence): the 512 largest values are
+    skipped (retry), any other value is consumed *)
+Theorem C16_float64_retry :
+  forall x r, N.eqb (round53 x) two63 = true -> float64 (x :: r) = float64 r.
+Proof. exact float64_retry. Qed.
+Print Assumptions C16_float64_retry.
+
+Theorem C16_float64_take :
+  forall x r, N.eqb (round53 x) two63 = false -> float64 (x :: r) = Some (f64_of_int63 x, r).
+Proof. exact float64_take. Qed.
+Print Assumptions C16_float64_take.
+
+Theorem C16_float64_retry_threshold :
+  N.eqb (round53 (two63 - 512)) two63 = true /\ N.eqb (round53 (two63 - 1)) two63 = true /\
+  N.eqb (round53 (two63 - 513)) two63 = false.
+Proof. exact retry_threshold. Qed.
+Print Assumptions C16_float64_retry_threshold.
